@@ -70,6 +70,18 @@ CHECKS = {
   note="The implementation's DFS component search and set-based de-duplication are covered by the set-level correspondence, not mirrored.",
   technique="Lean 4 proof (permutation enumeration, greedy/Grundy equivalence, product decomposition) + set-level correspondence",
   ref="9/C16"),
+ "C14": dict(
+  category="other",
+  text="Weakest claim of the set, stated as such: (i) an AST inventory of every place where rnapolis iterates a hash-ordered collection, "
+       "re-run on every check, must match a committed allow-list whose entries are classified (int / int-tuple elements whose hashes do "
+       "not depend on PYTHONHASHSEED; enumeration whose result is order-free by Lean theorems Props.C14: sorted_order_independent, "
+       "allLevels_membership_order_free, dedupFirst_spec); (ii) every output named in the property is recomputed in fresh interpreters "
+       "under 5 (quick) / 12 (thorough) hash seeds incl. 'random' and twice in-process and compared byte for byte. A functional Lean model "
+       "is deterministic by construction, so the theorems only cover order-independence of the modelled iteration sites.",
+  note="Nondeterminism inside SciPy, pandas, orjson, CBC or the OS is outside any model and is covered by the differential runs alone; "
+       "CPython's iteration order of int / int-tuple sets is assumed to be a function of contents and insertion history.",
+  technique="AST site inventory vs classified allow-list + Lean order-independence lemmas + hash-seed differential runs in fresh interpreters",
+  ref="9/C14"),
 }
 
 NOT_YET = {}
